@@ -226,7 +226,7 @@ func main() {
 			if t == "thorough" {
 				return 100000
 			}
-			return 3000
+			return 8000
 		},
 		Floor: func(t string) int {
 			if t == "thorough" {
